@@ -168,7 +168,7 @@ def main(chk):
     def __init__(self, shape, names):
       self.w = nnx.Param(jnp.zeros(shape, jnp.float32) + 1, sharding=names)
   inside_nnx = []
-  for idx, case in enumerate(res['exports']):
+  for idx, case, pname_r in [(i_, c_, pn_) for i_, c_ in enumerate(res['exports']) for pn_ in ('layers', None)]:      # both renderings of the partition name
     cfg = case['cfg']
     shape = tuple(cfg['v']['shape'])
     names = tuple(nm(x) for x in cfg['v']['names'])
@@ -181,7 +181,7 @@ def main(chk):
     n2 = k2 - (len(shape) + 2) if use_neg else k2
     if use_neg:
       key += ':negative-axes'
-    pname = None if idx % 5 in (3, 4) else 'layers'      # PARTITION_NAME: None = the stacked axis is left unpartitioned
+    pname = pname_r      # PARTITION_NAME: None = the stacked axis is left unpartitioned
     if pname is None:
       key += ':partition_name=None'
     try:
